@@ -16,6 +16,7 @@ package main
 
 import (
 	"fmt"
+	"os"
 	"go/constant"
 	"go/token"
 	"go/types"
@@ -34,11 +35,24 @@ const (
 	lErr            // error of known nil-ness: I == 0 nil, I == 1 non-nil
 	lBuf            // pointer to a modelled bytes.Buffer: I indexes state.bufs
 	lNilSlice       // nil slice (length 0), kept apart so that `x == nil` can be decided
+	lMade           // a slice made with a known non-zero length, not yet re-sliced: I indexes state.mades
 )
 
 type lval struct {
 	K lkind
 	I int64
+	U int64 // lSlice: number of elements of a made buffer that no path has written yet (they hold zero bytes)
+}
+
+// madeBuf: a buffer created by make([]T, n): which prefix of it has been written element by element.
+type madeBuf struct {
+	Len, Prefix int64
+	Untracked   bool // written through an index the abstraction does not know: nothing is claimed
+}
+
+type addrRef struct {
+	buf int64
+	idx int64
 }
 
 func (v lval) String() string {
@@ -46,7 +60,12 @@ func (v lval) String() string {
 	case lInt:
 		return fmt.Sprintf("%d", v.I)
 	case lSlice:
+		if v.U > 0 {
+			return fmt.Sprintf("len=%d(%d never written)", v.I, v.U)
+		}
 		return fmt.Sprintf("len=%d", v.I)
+	case lMade:
+		return fmt.Sprintf("made#%d", v.I)
 	case lNilSlice:
 		return "nil-slice"
 	case lErr:
@@ -64,10 +83,29 @@ type lstate struct {
 	env    map[ssa.Value]lval
 	tuples map[ssa.Value][]lval
 	bufs   []int64
+	mades  []madeBuf
+	addrs  map[ssa.Value]addrRef
+}
+
+// flat: what a made buffer looks like once it leaves the function that tracks it
+func (s *lstate) flat(v lval) lval {
+	if v.K != lMade {
+		return v
+	}
+	m := s.mades[v.I]
+	u := m.Len - m.Prefix
+	if m.Untracked || u < 0 {
+		u = 0
+	}
+	return lval{K: lSlice, I: m.Len, U: u}
 }
 
 func (s *lstate) clone() *lstate {
-	q := &lstate{env: make(map[ssa.Value]lval, len(s.env)), tuples: make(map[ssa.Value][]lval, len(s.tuples)), bufs: append([]int64(nil), s.bufs...)}
+	q := &lstate{env: make(map[ssa.Value]lval, len(s.env)), tuples: make(map[ssa.Value][]lval, len(s.tuples)), bufs: append([]int64(nil), s.bufs...),
+		mades: append([]madeBuf(nil), s.mades...), addrs: make(map[ssa.Value]addrRef, len(s.addrs))}
+	for k, v := range s.addrs {
+		q.addrs[k] = v
+	}
 	for k, v := range s.env {
 		q.env[k] = v
 	}
@@ -109,21 +147,29 @@ func libLenModel(f *types.Func, args []lval) ([]lval, bool) {
 		if n, ok := ln(args[0]); ok {
 			d := n * 7 / 8
 			if (d*8+6)/7 != n {
-				return []lval{{lNilSlice, 0}, {lErr, 1}}, true
+				return []lval{{K: lNilSlice, I: 0}, {K: lErr, I: 1}}, true
 			}
 			// ErrBit needs a symbol >= 0x80: contents, not decided here (R08.x alphabet rules)
-			return []lval{{lSlice, d}, {lErr, 0}}, true
+			return []lval{{K: lSlice, I: d}, {K: lErr, I: 0}}, true
+		}
+	case "go.chromium.org/luci/common/data/base128.EncodedLen":
+		if args[0].K == lInt {
+			return []lval{{K: lInt, I: (args[0].I*8 + 6) / 7}}, true
+		}
+	case "go.chromium.org/luci/common/data/base128.DecodedLen":
+		if args[0].K == lInt {
+			return []lval{{K: lInt, I: args[0].I * 7 / 8}}, true
 		}
 	case "go.chromium.org/luci/common/data/base128.EncodeToString":
 		if n, ok := ln(args[0]); ok {
-			return []lval{{lSlice, (n*8 + 6) / 7}}, true
+			return []lval{{K: lSlice, I: (n*8 + 6) / 7}}, true
 		}
 	case "github.com/pkg/errors.WithStack", "github.com/pkg/errors.Wrap", "github.com/pkg/errors.Wrapf", "github.com/pkg/errors.WithMessage":
 		if len(args) > 0 && args[0].K == lErr {
 			return []lval{args[0]}, true
 		}
 	case "github.com/pkg/errors.New", "github.com/pkg/errors.Errorf", "errors.New", "fmt.Errorf":
-		return []lval{{lErr, 1}}, true
+		return []lval{{K: lErr, I: 1}}, true
 	}
 	return nil, false
 }
@@ -154,25 +200,25 @@ func (li *lenInterp) val(st *lstate, v ssa.Value) lval {
 	if c, ok := v.(*ssa.Const); ok {
 		if c.Value == nil {
 			if isErrorType(c.Type()) {
-				return lval{lErr, 0}
+				return lval{K: lErr, I: 0}
 			}
 			if _, isSl := c.Type().Underlying().(*types.Slice); isSl {
-				return lval{lNilSlice, 0}
+				return lval{K: lNilSlice, I: 0}
 			}
 			return lval{}
 		}
 		switch c.Value.Kind() {
 		case constant.Int:
 			if x, ok := constant.Int64Val(c.Value); ok {
-				return lval{lInt, x}
+				return lval{K: lInt, I: x}
 			}
 		case constant.Bool:
 			if constant.BoolVal(c.Value) {
-				return lval{lInt, 1}
+				return lval{K: lInt, I: 1}
 			}
-			return lval{lInt, 0}
+			return lval{K: lInt, I: 0}
 		case constant.String:
-			return lval{lSlice, int64(len(constant.StringVal(c.Value)))}
+			return lval{K: lSlice, I: int64(len(constant.StringVal(c.Value)))}
 		}
 		return lval{}
 	}
@@ -181,6 +227,8 @@ func (li *lenInterp) val(st *lstate, v ssa.Value) lval {
 
 func alenOf(v lval) (int64, bool) {
 	switch v.K {
+	case lMade:
+		return v.U, true // a made buffer carries its length in U
 	case lSlice:
 		return v.I, true
 	case lNilSlice:
@@ -194,7 +242,7 @@ func (li *lenInterp) run(fn *ssa.Function, args []lval, depth int) [][]lval {
 	if len(fn.Blocks) == 0 || depth > 4 {
 		return nil
 	}
-	st := &lstate{env: map[ssa.Value]lval{}, tuples: map[ssa.Value][]lval{}}
+	st := &lstate{env: map[ssa.Value]lval{}, tuples: map[ssa.Value][]lval{}, addrs: map[ssa.Value]addrRef{}}
 	for i, p := range fn.Params {
 		if i < len(args) {
 			st.env[p] = args[i]
@@ -269,7 +317,7 @@ func (li *lenInterp) run(fn *ssa.Function, args []lval, depth int) [][]lval {
 				case *ssa.Return:
 					var res []lval
 					for _, r := range x.Results {
-						res = append(res, li.val(st, r))
+						res = append(res, st.flat(li.val(st, r)))
 					}
 					// a returned buffer-backed slice was resolved at Bytes(); nothing else to do
 					key := fmt.Sprint(res)
@@ -306,19 +354,43 @@ func (li *lenInterp) exec(st *lstate, in ssa.Instruction, depth int) {
 		t := x.Type().(*types.Pointer).Elem()
 		if n, ok := t.(*types.Named); ok && n.Obj().Pkg() != nil && n.Obj().Pkg().Path() == "bytes" && n.Obj().Name() == "Buffer" {
 			st.bufs = append(st.bufs, 0)
-			set(lval{lBuf, int64(len(st.bufs) - 1)})
+			set(lval{K: lBuf, I: int64(len(st.bufs) - 1)})
 			return
 		}
 		if arr, ok := t.Underlying().(*types.Array); ok {
-			set(lval{lSlice, arr.Len()}) // pointer to array: remembered by its length
+			set(lval{K: lSlice, I: arr.Len()}) // pointer to array: remembered by its length
 			return
 		}
 		set(lval{})
 	case *ssa.MakeSlice:
 		if l := li.val(st, x.Len); l.K == lInt {
-			set(lval{lSlice, l.I})
+			if l.I > 0 {
+				st.mades = append(st.mades, madeBuf{Len: l.I})
+				set(lval{K: lMade, I: int64(len(st.mades) - 1), U: l.I})
+			} else {
+				set(lval{K: lSlice, I: l.I})
+			}
 		} else {
 			set(lval{})
+		}
+	case *ssa.IndexAddr:
+		base := li.val(st, x.X)
+		if base.K == lMade {
+			if ix := li.val(st, x.Index); ix.K == lInt {
+				st.addrs[x] = addrRef{base.I, ix.I}
+			} else {
+				st.mades[base.I].Untracked = true
+			}
+		}
+		set(lval{})
+	case *ssa.Store:
+		if a, ok := st.addrs[x.Addr]; ok {
+			m := &st.mades[a.buf]
+			if a.idx == m.Prefix {
+				m.Prefix++
+			} else if a.idx > m.Prefix {
+				m.Untracked = true // written out of order: not followed
+			}
 		}
 	case *ssa.Slice:
 		base := li.val(st, x.X)
@@ -340,17 +412,17 @@ func (li *lenInterp) exec(st *lstate, in ssa.Instruction, depth int) {
 			}
 		}
 		if okLo && okHi && hi >= lo {
-			set(lval{lSlice, hi - lo})
+			set(lval{K: lSlice, I: hi - lo})
 		} else {
 			set(lval{})
 		}
 	case *ssa.Convert:
 		a := li.val(st, x.X)
 		if a.K == lInt {
-			set(lval{lInt, maskTo(x.Type(), a.I)})
+			set(lval{K: lInt, I: maskTo(x.Type(), a.I)})
 		} else if a.K == lSlice || a.K == lNilSlice {
 			if n, ok := alenOf(a); ok && isStringOrBytes(x.Type()) {
-				set(lval{lSlice, n})
+				set(lval{K: lSlice, I: n})
 			} else {
 				set(lval{})
 			}
@@ -362,7 +434,7 @@ func (li *lenInterp) exec(st *lstate, in ssa.Instruction, depth int) {
 	case *ssa.MakeInterface:
 		a := li.val(st, x.X)
 		if isErrorType(x.Type()) {
-			set(lval{lErr, 1})
+			set(lval{K: lErr, I: 1})
 		} else {
 			set(a)
 		}
@@ -371,12 +443,12 @@ func (li *lenInterp) exec(st *lstate, in ssa.Instruction, depth int) {
 		switch x.Op {
 		case token.NOT:
 			if a.K == lInt {
-				set(lval{lInt, 1 - a.I})
+				set(lval{K: lInt, I: 1 - a.I})
 				return
 			}
 		case token.SUB:
 			if a.K == lInt {
-				set(lval{lInt, maskTo(x.Type(), -a.I)})
+				set(lval{K: lInt, I: maskTo(x.Type(), -a.I)})
 				return
 			}
 		}
@@ -412,9 +484,9 @@ func (li *lenInterp) exec(st *lstate, in ssa.Instruction, depth int) {
 						r = !n
 					}
 					if r {
-						set(lval{lInt, 1})
+						set(lval{K: lInt, I: 1})
 					} else {
-						set(lval{lInt, 0})
+						set(lval{K: lInt, I: 0})
 					}
 					return
 				}
@@ -488,7 +560,7 @@ func (li *lenInterp) exec(st *lstate, in ssa.Instruction, depth int) {
 			set(lval{})
 			return
 		}
-		set(lval{lInt, maskTo(x.Type(), r)})
+		set(lval{K: lInt, I: maskTo(x.Type(), r)})
 	case *ssa.Extract:
 		if t, ok := st.tuples[x.Tuple]; ok && x.Index < len(t) {
 			set(t[x.Index])
@@ -497,7 +569,7 @@ func (li *lenInterp) exec(st *lstate, in ssa.Instruction, depth int) {
 		}
 	case *ssa.Call:
 		li.call(st, x, depth)
-	case *ssa.Store, *ssa.IndexAddr, *ssa.FieldAddr, *ssa.DebugRef, *ssa.MapUpdate:
+	case *ssa.FieldAddr, *ssa.DebugRef, *ssa.MapUpdate:
 		if isVal {
 			set(lval{})
 		}
@@ -509,9 +581,11 @@ func (li *lenInterp) exec(st *lstate, in ssa.Instruction, depth int) {
 }
 
 func (li *lenInterp) call(st *lstate, c *ssa.Call, depth int) {
-	var args []lval
+	var args, rawArgs []lval
 	for _, a := range c.Call.Args {
-		args = append(args, li.val(st, a))
+		v := li.val(st, a)
+		rawArgs = append(rawArgs, v)
+		args = append(args, st.flat(v)) // a tracked buffer leaves this function's state as a plain slice
 	}
 	setRes := func(res []lval) {
 		if c.Call.Signature().Results().Len() == 1 && len(res) >= 1 {
@@ -525,7 +599,7 @@ func (li *lenInterp) call(st *lstate, c *ssa.Call, depth int) {
 		switch b.Name() {
 		case "len":
 			if n, ok := alenOf(args[0]); ok {
-				st.env[c] = lval{lInt, n}
+				st.env[c] = lval{K: lInt, I: n}
 				return
 			}
 		case "append":
@@ -535,7 +609,7 @@ func (li *lenInterp) call(st *lstate, c *ssa.Call, depth int) {
 				n2, ok2 = alenOf(args[1])
 			}
 			if ok1 && ok2 {
-				st.env[c] = lval{lSlice, n1 + n2}
+				st.env[c] = lval{K: lSlice, I: n1 + n2}
 				return
 			}
 		case "copy":
@@ -545,7 +619,12 @@ func (li *lenInterp) call(st *lstate, c *ssa.Call, depth int) {
 				if n2 < n1 {
 					n1 = n2
 				}
-				st.env[c] = lval{lInt, n1}
+				if rawArgs[0].K == lMade {
+					if m := &st.mades[rawArgs[0].I]; n1 > m.Prefix {
+						m.Prefix = n1
+					}
+				}
+				st.env[c] = lval{K: lInt, I: n1}
 				return
 			}
 		}
@@ -559,26 +638,31 @@ func (li *lenInterp) call(st *lstate, c *ssa.Call, depth int) {
 		switch f.Name() {
 		case "WriteByte":
 			st.bufs[bi]++
-			st.env[c] = lval{lErr, 0}
+			st.env[c] = lval{K: lErr, I: 0}
 			return
 		case "Write", "WriteString":
 			if n, ok := alenOf(args[1]); ok {
 				st.bufs[bi] += n
-				st.tuples[c] = []lval{{lInt, n}, {lErr, 0}}
+				st.tuples[c] = []lval{{K: lInt, I: n}, {K: lErr, I: 0}}
 				st.env[c] = lval{}
 				return
 			}
 			li.fail = "bytes.Buffer." + f.Name() + " with a payload of undetermined length"
 			return
 		case "Len":
-			st.env[c] = lval{lInt, st.bufs[bi]}
+			st.env[c] = lval{K: lInt, I: st.bufs[bi]}
 			return
 		case "Bytes":
-			st.env[c] = lval{lSlice, st.bufs[bi]}
+			st.env[c] = lval{K: lSlice, I: st.bufs[bi]}
 			return
 		case "String":
-			st.env[c] = lval{lSlice, st.bufs[bi]}
+			st.env[c] = lval{K: lSlice, I: st.bufs[bi]}
 			return
+		}
+	}
+	for _, ra := range rawArgs {
+		if ra.K == lMade {
+			st.mades[ra.I].Untracked = true // handed to another function: it may fill it
 		}
 	}
 	if res, ok := libLenModel(f, args); ok {
@@ -617,6 +701,7 @@ func (li *lenInterp) call(st *lstate, c *ssa.Call, depth int) {
 // receiver, if any, is unknown). ok[i] false: undetermined (contents-dependent or not modelled). errs[i]: the
 // last result is an error known non-nil in some exploration.
 type lenProfile struct {
+	Unwritten []int64 // per length: the largest number of never-written elements in a returned made buffer
 	Out     []int64
 	Ok      []bool
 	Err     []bool
@@ -646,10 +731,11 @@ func lengthProfile(w *World, fn *ssa.Function, lengths []int64) lenProfile {
 			li.snaps = map[*ssa.BasicBlock][][]int64{}
 		}
 		args := make([]lval, len(fn.Params))
-		args[pidx] = lval{lSlice, n}
+		args[pidx] = lval{K: lSlice, I: n}
 		outs := li.run(fn, args, 0)
 		ok, isErr := li.fail == "" && len(outs) > 0, false
 		var out int64 = -1
+		var unw int64
 		for i, o := range outs {
 			if len(o) == 0 {
 				ok = false
@@ -662,6 +748,9 @@ func lengthProfile(w *World, fn *ssa.Function, lengths []int64) lenProfile {
 			}
 			if len(o) > 1 && last.K != lErr {
 				ok = false
+			}
+			if o[0].K == lSlice && o[0].U > unw {
+				unw = o[0].U
 			}
 			l, known := alenOf(o[0])
 			if !known {
@@ -681,13 +770,17 @@ func lengthProfile(w *World, fn *ssa.Function, lengths []int64) lenProfile {
 		if li.fail != "" && lp.Why == "" {
 			lp.Why = li.fail
 		}
+		if os.Getenv("SA_DEBUG") != "" {
+			fmt.Fprintf(os.Stderr, "lenprofile %s n=%d outs=%v fail=%q\n", fn.Name(), n, outs, li.fail)
+		}
+		lp.Unwritten = append(lp.Unwritten, unw)
 		lp.Out = append(lp.Out, out)
 		lp.Ok = append(lp.Ok, (ok && out >= 0) || (isErr && len(outs) == 1))
 		lp.Err = append(lp.Err, isErr)
 		if !(ok && out >= 0) && !isErr {
 			// outside the abstraction: no point in trying the other lengths
 			for len(lp.Ok) < len(lengths) {
-				lp.Out, lp.Ok, lp.Err = append(lp.Out, -1), append(lp.Ok, false), append(lp.Err, false)
+				lp.Out, lp.Ok, lp.Err, lp.Unwritten = append(lp.Out, -1), append(lp.Ok, false), append(lp.Err, false), append(lp.Unwritten, 0)
 			}
 			return lp
 		}
